@@ -611,7 +611,10 @@ def main(seed, tier):
                      "(dictionaries: uninterpreted Map terms, merged through the proved contract of merge_dicts; lists: "
                      "opaque), glob modelled as returning the files in reverse order, json.load as returning the "
                      "document, sorted() natively on pathlib paths; result proved to be the left fold in name order "
-                     "(unbounded in the contents, BOUNDED in the number of files); additionally compared with an "
+                     "(unbounded in the contents; in the NUMBER of files the runs cover 0..4, and the two-file run with an "
+                     "arbitrary first content is the induction step of the left fold for any number - the loop body reads "
+                     "only data, entry and chunk - leaving the order of k > 4 paths to the assumed contract of sorted()); "
+                     "additionally compared with an "
                      "independent name-ordered fold on the bundled files (exhaustive for this tree) and on one overlay "
                      "scenario with order-sensitive file names; json and the file system are assumed",
                      "registry.save (the one writer of registry._registry, reached only at import / first load) is "
